@@ -327,7 +327,12 @@ def _gen_docs():
         "gen:odt-nometa@A": (odf.odt(doc, opts=nometa), "A.odt"), "gen:ods-nometa@B": (odf.ods(sh, opts=nometa), "dir/B.ods"),
         "gen:odt-nometa@none": (odf.odt(doc, opts=nometa), None), "gen:odp-nometa@C": (odf.odp(doc2, opts=nometa), "C.odp"),
         "gen:odt@D": (odf.odt(doc2), "D.odt"), "gen:docx@E": (ooxml.docx(doc), "E.docx"), "gen:docx@none": (ooxml.docx(doc2), None),
-        "gen:pptx@F": (ooxml.pptx(doc), "F.pptx"), "gen:xlsx@G": (ooxml.xlsx(sh), "G.xlsx"), "gen:xlsx@none": (ooxml.xlsx(sh), None),
+        "gen:pptx@F": (ooxml.pptx(doc), "F.pptx"),
+        # a deck with a comment part / notes and a longer deck without: per-document caches must not be shared
+        "gen:pptx-comments@M": (ooxml.pptx(["doc", {}, [["unit", [["p", [["t", "Bfghjk"]]]], {}],
+                                                          ["unit", [["p", [["t", "Bghjkl"]]]], {"comments": ["Mbcdfg"], "notes": ["Pbcdfg"]}]]]), "M.pptx"),
+        "gen:pptx-3slides@N": (ooxml.pptx(["doc", {}, [["unit", [["p", [["t", "Bhjklm"]]]], {}], ["unit", [["p", [["t", "Bjklmn"]]]], {}],
+                                                         ["unit", [["p", [["t", "Bklmnp"]]]], {}]]]), "N.pptx"), "gen:xlsx@G": (ooxml.xlsx(sh), "G.xlsx"), "gen:xlsx@none": (ooxml.xlsx(sh), None),
         "gen:epub@H": (htmlfam.epub([htmlfam.xhtml_page("<p>Bbcdfg</p>", "t")], {"title": "t"}), "H.epub"),
         "gen:html@I": (htmlfam.html_page("<p>Bbcdfg</p>").encode(), "I.html"), "gen:rtf@J": (rtf.rtf(doc), "J.rtf"),
         "gen:txt@none": (plain.txt(["doc", {}, doc[2]]), None),
